@@ -558,7 +558,10 @@ impl<'c> Hist<'c> {
                 self.check_counts("ghost", None);
             }
             _ => {
-                // curve points
+                // curve points (blst is FFI: not under Miri)
+                if self.ctx.miri {
+                    return;
+                }
                 let p = crate::util::points();
                 if r.chance(1, 2) {
                     let b = r.pick(&p.g1).clone();
